@@ -210,29 +210,40 @@ theorem Tree.prune_collected (a : App) (t : Tree) (to : Nat) (hc : a.cfg.collect
   · simp [h]
   · simp [h, App.emit_collected hc]
 
+/-- the root deletes a store commit stages after its save (a function of the
+database handle's state and the tree). -/
+def Tree.commitDels (a : App) (t : Tree) : List WOp :=
+  match t.saved.pruneTo a.cfg with
+  | some to => pruneDels { a with coll := a.coll ++ t.saveOps } t.name to
+  | none => []
+
+theorem Tree.commitDels_below (a : App) (t : Tree) :
+    DelsBelow t.name t.workingVersion (Tree.commitDels a t) := by
+  unfold Tree.commitDels
+  cases hp : t.saved.pruneTo a.cfg with
+  | none => intro op hop; cases hop
+  | some to =>
+    have hlt : to < t.workingVersion := by
+      have := Tree.pruneTo_lt hp
+      simpa [Tree.saved_version] using this
+    intro op hop
+    obtain ⟨v, rfl, hv⟩ := pruneDels_shape _ t.name to op hop
+    exact ⟨v, rfl, by omega⟩
+
 /-- In collected mode, when the version to be saved does not exist yet, a
 store commit only appends to the collector: the save ops, then root deletes of
 older versions. -/
 theorem Tree.commit_collected (a : App) (t : Tree) (hc : a.cfg.collected = true)
     (hnone : a.look (.root t.name t.workingVersion) = none) :
-    ∃ ds, DelsBelow t.name t.workingVersion ds ∧
+    ∃ ds, ds = Tree.commitDels a t ∧ DelsBelow t.name t.workingVersion ds ∧
       Tree.commit a t = .ok ({ a with coll := a.coll ++ (t.saveOps ++ ds) }, t.saved) := by
-  unfold Tree.commit Tree.save
+  refine ⟨_, rfl, Tree.commitDels_below a t, ?_⟩
+  unfold Tree.commit Tree.save Tree.commitDels
   simp only [hnone, App.emit_collected hc]
   cases hp : t.saved.pruneTo a.cfg with
-  | none =>
-    refine ⟨[], ?_, ?_⟩
-    · intro op hop; cases hop
-    · simp
+  | none => simp
   | some to =>
-    have hlt : to < t.workingVersion := by
-      have := Tree.pruneTo_lt hp
-      simpa [Tree.saved_version] using this
-    refine ⟨pruneDels { a with coll := a.coll ++ t.saveOps } t.name to, ?_, ?_⟩
-    · intro op hop
-      obtain ⟨v, rfl, hv⟩ := pruneDels_shape _ t.name to op hop
-      exact ⟨v, rfl, by omega⟩
-    · have hc1 : ({ a with coll := a.coll ++ t.saveOps } : App).cfg.collected = true := hc
-      simp only [Tree.prune_collected _ _ _ hc1, Tree.saved_name, List.append_assoc]
+    have hc1 : ({ a with coll := a.coll ++ t.saveOps } : App).cfg.collected = true := hc
+    simp only [Tree.prune_collected _ _ _ hc1, Tree.saved_name, List.append_assoc]
 
 end GnoVerif.C27
